@@ -236,3 +236,56 @@ func VC19_Walk() {
 		vf.Assert(h3.Equals(h), "merge-not-equal")
 	}
 }
+
+// A histogram obtained by Export/Import or Merge is a separate histogram:
+// later calls on one do not change what the other reports (and cannot trip
+// its invariant panics). One symbolic recorded value, small shapes.
+func VC19_Alias() {
+	shapes := []vc19shape{{1, 30, 1}, {2, 64, 1}}
+	if vf.Thorough() {
+		shapes = []vc19shape{{1, 30, 1}, {2, 64, 1}, {1, 100, 1}, {3, 200, 1}, {1, 255, 2}}
+	}
+	s := shapes[vf.Choice("shape", len(shapes))]
+	vf.Notef("shape min=%d max=%d sig=%d", s.min, s.max, s.sig)
+	h := New(s.min, s.max, s.sig)
+	v := vc19val(s, "v")
+	m := vf.Range("mult", 1, 2)
+	if err := h.RecordValues(v, int64(m)); err != nil {
+		vf.Assert(false, "record-in-range-rejected")
+		return
+	}
+	unit := int64(1) << vc19um(s.min)
+	p := vc19pow10(s.sig)
+	within := func(got, exact int64) bool {
+		d := got - exact
+		return vf.And(exact <= got, vf.Or(d < unit, d*p <= exact))
+	}
+	var other, untouched *Histogram
+	mode := vf.Choice("mutate", 5)
+	w := s.max // the later recording is concrete: aliasing does not depend on its value
+	switch mode {
+	case 0:
+		other, untouched = h, Import(h.Export())
+		other.Reset()
+	case 1:
+		other, untouched = h, Import(h.Export())
+		_ = other.RecordValues(w, 2)
+	case 2:
+		other, untouched = Import(h.Export()), h
+		_ = other.RecordValues(w, 2)
+	case 3:
+		other, untouched = New(s.min, s.max, s.sig), h
+		_ = other.Merge(h)
+		_ = other.RecordValues(w, 2)
+	case 4:
+		other, untouched = Import(h.Export()), h
+		other.Reset()
+	}
+	vf.Reach("independent")
+	vf.Assert(untouched.TotalCount() == int64(m), "copy-changed-by-calls-on-the-other-histogram:total")
+	vf.Assert(within(untouched.Max(), v), "copy-changed-by-calls-on-the-other-histogram:max")
+	mn := untouched.Min()
+	dmin := v - mn
+	vf.Assert(vf.And(mn <= v, vf.Or(dmin < unit, dmin*p <= v)), "copy-changed-by-calls-on-the-other-histogram:min")
+	vf.Assert(within(untouched.ValueAtQuantile(100), v), "copy-changed-by-calls-on-the-other-histogram:q100")
+}
